@@ -29,7 +29,7 @@ const prop = "C02"
 
 // clause names in priority order: the first failing clause of a candidate is its verdict.
 var clauseOrder = []string{
-	"panic", "accepted-invalid", "refused-valid", "refusal-changed-machine", "signed-after-refusal", "staged-differs",
+	"panic", "accepted-invalid", "accepted-invalid-after-check", "refused-valid", "refusal-changed-machine", "signed-after-refusal", "staged-differs",
 	"checkupdate-panic", "checkupdate-accepted-invalid", "checkupdate-refused-valid", "checkupdate-changed-machine",
 }
 
@@ -238,6 +238,23 @@ func (s *searcher) evalUpdate(combo []int) *outcome {
 		o.fail("checkupdate-changed-machine", "CheckUpdate changed the machine: phase %v->%v staged %s", before2.Phase, after2.Phase, brief(m2.StagingState()))
 	}
 	s.say("CheckUpdate -> %s (signature by participant %d, signable=%v)", o.Check, sigIdx, serr == nil)
+
+	// --- a verdict of CheckUpdate does not outlive the content it was given for: the plain
+	// successor passes CheckUpdate, the SAME object is then overwritten with the candidate and
+	// handed to Update, which must judge what it is given
+	if v, ok := s.candidate(nil); ok {
+		if vsig, verr := channel.Sign(fx.Accs[sigIdx], v.S, 0); verr == nil {
+			m3 := s.machine()
+			if err, pan := guard(func() error { return m3.CheckUpdate(v.S, c.Actor, vsig, channel.Index(sigIdx)) }); err == nil && pan == nil {
+				c3, _ := s.candidate(combo)
+				*v.S = *c3.S
+				err, pan := guard(func() error { return m3.Update(v.S, c3.Actor) })
+				if pan == nil && err == nil && !o.Want {
+					o.fail("accepted-invalid-after-check", "Update accepted a candidate that violates %v: the object had passed CheckUpdate with other content before", o.Reasons)
+				}
+			}
+		}
+	}
 	return o
 }
 
